@@ -19,7 +19,7 @@ import itertools
 import z3
 
 from pyvc.prop import Unit
-from pyvc.values import SV, STR, OSTR, BOOL, term, is_sym, fresh, fresh_term
+from pyvc.values import strval, SV, STR, OSTR, BOOL, term, is_sym, fresh, fresh_term
 from pyvc import omap as O
 from pyvc.execu import HObj, PyRaise
 from pyvc.source import repo
@@ -67,14 +67,14 @@ def SIX():
 
 
 def in_six(k):
-    return z3.Or([k == z3.StringVal(c) for c in SIX()])
+    return z3.Or([k == strval(c) for c in SIX()])
 
 
 def spec_key(m, name, alias):
-    n = z3.StringVal(name)
+    n = strval(name)
     if not alias:
         return n
-    a = z3.StringVal(alias)
+    a = strval(alias)
     return z3.If(z3.And(z3.Not(O.om_has(m, n)), O.om_has(m, a)), a, n)
 
 
@@ -180,7 +180,7 @@ class SMChartGuard(Unit):
                 ex.prove("__setitem__:post:keys-stay-six", z3.Implies(O.om_has(m1, kq), in_six(kq)),
                          "no key outside the six fixed fields can ever be added")
                 ex.prove("__setitem__:post:map",
-                         z3.Or([m1 == O.om_set(m0, z3.StringVal(c), OSTR.some(v.t)) for c in SIX()]),
+                         z3.Or([m1 == O.om_set(m0, strval(c), OSTR.some(v.t)) for c in SIX()]),
                          "a successful assignment stores the value under one of the six fields, everything else untouched")
                 ex.prove("__setitem__:post:exact-key", z3.Implies(six, m1 == O.om_set(m0, k.t, OSTR.some(v.t))))
             elif op == "__delitem__":
@@ -248,7 +248,7 @@ class SMChartEq(Unit):
         r = ex.eq(a, b)
 
         def g(m, f):
-            f = z3.StringVal(f)
+            f = strval(f)
             return z3.If(O.om_has(m, f), O.om_get(m, f), none)
 
         ex.prove("__eq__:post:six-fields", ex._z(r) == z3.And([g(ma, f) == g(mb, f) for f in SIX()]),
